@@ -364,10 +364,36 @@ def _lock_file_sessions(ctx):
     ctx.shape("stratum:in-place-env")
 
 
+def _arbitrary_equality(ctx):
+    """`===` atoms (string identity of the version text) on the version-aware variables, in both operand orders, alone
+    and next to atoms of OTHER variables (combining them with the same variable may raise ValueError, C04), on
+    environments that spell equal versions differently - canonical and not: for `===` the spelling is the value."""
+    ctx.stratum = "main"
+    spell = {"python_full_version": ["3.8.1", "3.08.1", "v3.8.1", "3.8.1.0", "3.8.01", "3.8.1rc1", "3.8.1RC1", "3.8.1-1", "3.8.1.post1"],
+             "python_version": ["3.8", "3.08", "3.8.0", "v3.8", "3.10", "3.1"],
+             "platform_release": ["5.4.0-42", "5.4.0.post42", "5.4.0", "5.04.0", "5.4", "V5.4", "6.1.0-rc1", "6.1.0rc1"]}
+    base = {"python_full_version": "3.8.1", "python_version": "3.8", "platform_release": "5.4.0", "os_name": "a", "extra": ""}
+    n = 0
+    for var, lits in spell.items():
+        envs = [{**base, var: v} for v in lits]
+        for lit in lits:
+            for t in (f'{var} === "{lit}"', f'"{lit}" === {var}', f'{var} === "{lit}" and os_name == "a"',
+                      f'os_name == "b" or "{lit}" === {var}', f'{var} === "{lit}" and extra == "x"'):
+                if (n + ctx.shard) % ctx.nshards:
+                    n += 1
+                    continue
+                n += 1
+                ctx.cases += 1
+                ctx.current_case = {"kind": "text", "text": t, "stratum": "main", "context": "metadata", "spellings": var}
+                ctx.guarded(5.0, _one_text, ctx, t, "metadata", envs)
+    ctx.shape("stratum:arbitrary-equality", n)
+
+
 def run(ctx):
     quick = ctx.tier == "quick"
     ctx.c03_kept = []
     _atom_table(ctx)
+    _arbitrary_equality(ctx)
     _small_scope(ctx)
     _lock_file(ctx)
     _lock_file_sessions(ctx)
